@@ -72,6 +72,7 @@ type Path struct {
 	Env    map[ssa.Value]*Term                    // final environment
 	LoopIn map[*ssa.BasicBlock]map[*ssa.Phi]*Term // loopvar terms per header entered
 	Acc    []Access
+	Part   []Access                // partial operations in path order: Kind index|slice|mkslice|div, Addr = the operation's term
 	LoopAt map[*ssa.BasicBlock]int // number of events when the header was entered
 }
 
@@ -228,6 +229,7 @@ type pstate struct {
 	defers []Event
 	loopIn map[*ssa.BasicBlock]map[*ssa.Phi]*Term
 	acc    []Access
+	part   []Access // partial operations (index, slice, make, division): see lateguard.go
 	loopAt map[*ssa.BasicBlock]int
 	frames []frame
 }
@@ -274,6 +276,7 @@ func (s *pstate) clone() *pstate {
 	n.blocks = append([]int(nil), s.blocks...)
 	n.defers = append([]Event(nil), s.defers...)
 	n.acc = append([]Access(nil), s.acc...)
+	n.part = append([]Access(nil), s.part...)
 	n.frames = append([]frame(nil), s.frames...)
 	n.loopAt = make(map[*ssa.BasicBlock]int, len(s.loopAt))
 	for k, v := range s.loopAt {
@@ -796,7 +799,7 @@ func stripNot(t *Term, pol bool) (*Term, bool) {
 }
 
 func (w *walker) finish(st *pstate, end EndKind) *Path {
-	p := &Path{Fn: w.fn, Conds: st.conds, Events: st.events, End: end, Blocks: st.blocks, Env: st.env, LoopIn: st.loopIn, Acc: st.acc, LoopAt: st.loopAt}
+	p := &Path{Fn: w.fn, Conds: st.conds, Events: st.events, End: end, Blocks: st.blocks, Env: st.env, LoopIn: st.loopIn, Acc: st.acc, LoopAt: st.loopAt, Part: st.part}
 	w.out.Paths = append(w.out.Paths, p)
 	return p
 }
@@ -1080,6 +1083,7 @@ func (w *walker) step(st *pstate, in ssa.Instruction, b *ssa.BasicBlock, idx int
 	case *ssa.MakeSlice:
 		c := w.val(st, x.Cap)
 		st.env[x] = &Term{Op: "mkslice", Val: x, Typ: x.Type(), Args: []*Term{w.val(st, x.Len), c}}
+		st.part = append(st.part, Access{Kind: "mkslice", Addr: st.env[x], Instr: x, NEv: len(st.events), NCond: len(st.conds)})
 	case *ssa.MakeMap:
 		st.env[x] = &Term{Op: "mkmap", Val: x, Typ: x.Type()}
 	case *ssa.MakeChan:
@@ -1115,6 +1119,9 @@ func (w *walker) step(st *pstate, in ssa.Instruction, b *ssa.BasicBlock, idx int
 	case *ssa.SliceToArrayPointer:
 		st.env[x] = &Term{Op: "conv", Args: []*Term{w.val(st, x.X)}, Typ: x.Type(), Val: x}
 	case *ssa.BinOp:
+		if (x.Op == token.QUO || x.Op == token.REM) && isIntegerType(x.Type()) {
+			st.part = append(st.part, Access{Kind: "div", Addr: w.val(st, x.Y), Instr: x, NEv: len(st.events), NCond: len(st.conds)})
+		}
 		st.env[x] = simplifyBin(&Term{Op: "bin", Sym: x.Op.String(), Args: []*Term{w.val(st, x.X), w.val(st, x.Y)}, Typ: x.Type(), Val: x})
 	case *ssa.UnOp:
 		a := w.val(st, x.X)
@@ -1151,8 +1158,10 @@ func (w *walker) step(st *pstate, in ssa.Instruction, b *ssa.BasicBlock, idx int
 		st.env[x] = fieldOf(base, f, x.Type())
 	case *ssa.IndexAddr:
 		st.env[x] = &Term{Op: "iaddr", Args: []*Term{w.val(st, x.X), w.val(st, x.Index)}, Typ: x.Type(), Val: x}
+		st.part = append(st.part, Access{Kind: "index", Addr: st.env[x], Instr: x, NEv: len(st.events), NCond: len(st.conds)})
 	case *ssa.Index:
 		st.env[x] = &Term{Op: "index", Args: []*Term{w.val(st, x.X), w.val(st, x.Index)}, Typ: x.Type(), Val: x}
+		st.part = append(st.part, Access{Kind: "index", Addr: st.env[x], Instr: x, NEv: len(st.events), NCond: len(st.conds)})
 	case *ssa.Lookup:
 		m := w.val(st, x.X)
 		cls := "m:" + typeStr(x.X.Type())
@@ -1175,6 +1184,7 @@ func (w *walker) step(st *pstate, in ssa.Instruction, b *ssa.BasicBlock, idx int
 			return w.val(st, v)
 		}
 		st.env[x] = &Term{Op: "slice", Args: []*Term{w.val(st, x.X), arg(x.Low), arg(x.High), arg(x.Max)}, Typ: x.Type(), Val: x}
+		st.part = append(st.part, Access{Kind: "slice", Addr: st.env[x], Instr: x, NEv: len(st.events), NCond: len(st.conds)})
 	case *ssa.Extract:
 		tup := w.val(st, x.Tuple)
 		if tup.Op == "tuple" && x.Index < len(tup.Args) {
